@@ -191,3 +191,7 @@ Definition case_ok (c : case) : bool :=
   let '(e, s, obs) := c in str_eqb (expand e s) obs.
 
 Definition mismatches (cs : list case) : list N := mismatches_from case_ok 0 cs.
+
+(** decoder of the harness's token stream (strings by index into a table) *)
+Definition d_case (t : list str) : dec case :=
+  d_pair (d_pair (d_list (d_pair (d_ref t) (d_ref t))) (d_ref t)) (d_ref t).
